@@ -41,7 +41,8 @@ IssuerIds == { C(8, 3), C(58, 1), C(300, 2) }                   \* text "iss", s
 Lit(n) == IF n = 1 THEN <<"", "KEY", "">> ELSE <<"", "", "KEY", "">>
 ReqF(fn, subj, kn, iss, idform, sg, clock, start, dur, tz, tz2) ==
   [fn |-> fn, subj |-> subj, keyname |-> KeyName(kn), lit |-> Lit(kn), publen |-> PubLen(subj), issuer |-> iss,
-   idform |-> idform, sg |-> sg, clock |-> clock, start |-> start, dur |-> dur, tz |-> tz, tz2 |-> tz2]
+   idform |-> idform, sg |-> sg, clock |-> clock, start |-> start, dur |-> dur, tz |-> tz, tz2 |-> tz2,
+   zone |-> "", host |-> "UTC"]
 \* the issuer id of a generic component as plain text, of any other as an encoded component
 Req(fn, subj, kn, iss, sg, clock, start, dur, tz) ==
   ReqF(fn, subj, kn, iss, IF fn = "derive" /\ iss.t = 8 /\ iss.l > 0 THEN "plain" ELSE "comp", sg, clock, start, dur, tz, tz)
@@ -83,6 +84,38 @@ OddIdentities ==
                Req("sign_req", "ed25519", 1, C(8, 0), SgI("ed25519", 64, 64, TRUE), NormalClock, Epoch, 0, Naive),
                ReqF("new_cert", "ec256", 1, C(8, 3), "comp", SgI("hmac", 32, 32, TRUE), NormalClock, At(2024, 5, 6, 7, 8, 9), 3600, 0, 0) },
       id \in Identities }
+\* the host process runs in another time zone (incl. the days its clock jumps); naive and aware callers
+Hosts == {"America/Los_Angeles", "Asia/Kolkata"}
+HostInstants == { At(2024, 3, 10, 10, 0, 0), At(2024, 11, 3, 8, 59, 59), At(2024, 7, 1, 0, 0, 0) }
+HostZones ==
+  { [r EXCEPT !.host = h] :
+      h \in Hosts,
+      r \in { Req("derive", "ed25519", 1, C(8, 3), SgI("hmac", 32, 32, TRUE), Clk(i, 7), i, 86400, z) : i \in HostInstants, z \in {Naive, 0} }
+          \cup { ReqF("new_cert", "ed25519", 1, C(8, 3), "comp", SgI("hmac", 32, 32, TRUE), Clk(i, 7), i, 3600, z, z) :
+                    i \in HostInstants, z \in {Naive, 330} }
+          \cup { Req(fn, "ed25519", 1, C(8, 0), SgI("ed25519", 64, 64, TRUE), Clk(i, 7), Epoch, 0, Naive) :
+                    fn \in {"self_sign", "sign_req"}, i \in HostInstants } }
+\* the caller's zone has daylight-saving time: lifetimes are elapsed seconds
+DstZones ==
+  { [r EXCEPT !.zone = z, !.tz = 0, !.tz2 = 0] :
+      z \in {"America/New_York", "Europe/Berlin"},
+      r \in { Req("derive", "ed25519", 1, C(8, 3), SgI("hmac", 32, 32, TRUE), NormalClock, i, du, 0) :
+                 i \in { At(2024, 3, 9, 17, 0, 0), At(2024, 3, 30, 12, 0, 0), At(2024, 11, 2, 16, 0, 0), At(2024, 6, 1, 0, 0, 0) },
+                 du \in {3600, 86400} } }
+\* years before 1000 (four-digit year with leading zeros) and the first representable day
+EarlyYears == { Req("derive", "ed25519", 1, C(8, 3), SgI("hmac", 32, 32, TRUE), NormalClock, i, du, Naive) :
+                  i \in { At(999, 12, 31, 23, 59, 59), At(1000, 1, 1, 0, 0, 0), At(1, 1, 1, 0, 0, 0), At(1969, 12, 31, 23, 59, 59) },
+                  du \in {1, 86400} }
+\* certificates whose outer length lands on 252..256 / 65534..65538 before or after the signature shrink
+\* (new_cert assembles the outer TL by hand around the shrunk value): the identity component is sized for it
+OuterBnd == {252, 253, 254, 255, 256, 65534, 65535, 65536, 65537, 65538}
+Sized(r, n) == [r EXCEPT !.keyname = <<C(8, n), C(8, 3), C(8, 8)>>]
+SizedBase == { Req("derive", "ed25519", 1, C(8, 3), SgI("ecdsa", 72, a, TRUE), NormalClock, At(2024, 5, 6, 7, 8, 9), 3600, Naive) : a \in 70..72 }
+             \cup { Req("self_sign", "ec256", 1, C(8, 0), SgI("ecdsa", 72, a, TRUE), NormalClock, Epoch, 0, Naive) : a \in {70, 72} }
+             \cup { ReqF("new_cert", "ed25519", 1, C(8, 3), "comp", SgI("ecdsa", 104, a, TRUE), NormalClock, At(2024, 5, 6, 7, 8, 9), 3600, Naive, Naive) : a \in {102, 104} }
+SizeCands(r) == UNION { { n \in (b - (Reserved(CertCfg(Sized(r, 1))).len - 1) - 6)..(b - (Final(CertCfg(Sized(r, 1))).len - 1) + 6) : n >= 0 } : b \in OuterBnd }
+OuterBoundary == UNION { { Sized(r, n) : n \in { m \in SizeCands(r) : Reserved(CertCfg(Sized(r, m))).len \in OuterBnd
+                                                                       \/ Final(CertCfg(Sized(r, m))).len \in OuterBnd } } : r \in SizedBase }
 DeriveClocks == { Req("derive", "ed25519", 1, C(8, 3), SgI("hmac", 32, 32, TRUE), ck, Epoch, 1, Naive) : ck \in Clocks }
 Own(fn) == UNION { { Req(fn, k, kn, C(8, 0), s, ck, Epoch, 0, Naive) :
                        kn \in (IF Thorough THEN {1, 2} ELSE {1}), s \in OwnSigners(k),
@@ -90,5 +123,6 @@ Own(fn) == UNION { { Req(fn, k, kn, C(8, 0), s, ck, Epoch, 0, Naive) :
                    k \in SubjTypes }
 
 ReqSpace == { q \in DeriveSigners \cup DeriveTimes \cup DeriveClocks \cup DeriveIssuerIds \cup NewCertZones \cup OddIdentities
+                    \cup HostZones \cup DstZones \cup EarlyYears \cup OuterBoundary
                     \cup Own("self_sign") \cup Own("sign_req") : InScope(q) }
 =============================================================================
